@@ -332,13 +332,20 @@ class Representation:
 
         """
 
+        for word, _ in self._free_words_last_generator(length):
+            yield word
+
+    def _free_words_last_generator(self, length):
+        # generator names can have several characters: keep track of
+        # the last generator of each word, instead of reading the last
+        # character of the word
         if length == 0:
-            yield ""
+            yield ("", None)
         else:
-            for word in self.free_words_of_length(length - 1):
+            for word, last in self._free_words_last_generator(length - 1):
                 for generator in self.generators:
-                    if len(word) == 0 or generator != utils.words.invert_gen(word[-1]):
-                        yield word + generator
+                    if last is None or generator != utils.words.invert_gen(last):
+                        yield (word + generator, generator)
 
     def free_words_less_than(self, length):
         """Yield freely reduced words in the generators, up to a specified
